@@ -195,58 +195,76 @@ def concl_suite(ctx, search=False):
         progs = suite_concl.gen_program(rng, nsetup)
         for k in range(nsched):
             runs.append(("C03_%d_%d_%d" % (ctx.seed, i, k), rng.randrange(1 << 30), nsetup, progs))
-    B = 500
+    jobs = [dict(src="conc_cl.cpp", out_name="conc_cl_disp", defines=["VC_DISP=1"])]
+    if not quick:
+        jobs.append(dict(src="conc_cl.cpp", out_name="conc_cl_dispmap", defines=["VC_DISP=1", "VC_MAP=1"]))
+    variants = [("conc_cl", exe, False, 1)]
+    for j in jobs:
+        okd, exed, logd = vlib.build_harness(**j)
+        ctx.oblige("harness %s (the same calls through an EventDispatcher) builds from /repo/include" % j["out_name"], okd, logd[-2000:])
+        if okd:
+            variants.append((j["out_name"], exed, True, 2))
+    all_runs = runs
     nfail = 0
-    for off in range(0, len(runs), B):
-        chunk = runs[off:off + B]
-        text = "".join(suite_concl.run_text(*r) for r in chunk)
-        rc, out, err = vlib.run_harness(exe, text, timeout=600)
-        mtext = ""
-        for name, seed, nsetup, progs in chunk:
-            sec = out.get(name)
-            if sec is None:
-                continue
-            mtext += suite_concl.run_text(name, seed, nsetup, progs) + "\n".join(l for l in sec if l.startswith("step ")) + "\n"
-        rcm, mout, errm = vlib.run_driver("concl", mtext, timeout=900)
-        for name, seed, nsetup, progs in chunk:
-            ctx.cov["evaluations"] += 1
-            script = suite_concl.run_text(name, seed, nsetup, progs)
-            sec = out.get(name)
-            if sec is None:
-                nfail += 1
-                if nfail <= 3:
-                    ctx.fail("violation", "implementation crashed / hung before this run finished (rc=%s): %s" % (rc, err[-800:]), script, "conc_cl")
-                continue
-            di = suite_concl.parse(sec)
-            why = suite_concl.impl_oracles(nsetup, progs, di)
-            sched = "# schedule (global order of the performed micro-steps):\n" + "\n".join("# " + l for l in di["steps"])
-            if why:
-                nfail += 1
-                if nfail <= 3:
-                    ctx.fail("violation", why, script + sched, "conc_cl", "\n".join(l for l in sec if not l.startswith("step") and not l.startswith("note")))
-                continue
-            dm = suite_concl.parse(mout.get(name, []))
-            diff = None
-            if dm["mismatch"]:
-                diff = dm["mismatch"][0]
-            else:
-                for key in ("rets", "visits", "final", "back"):
-                    if di[key] != dm[key]:
-                        diff = "%s: implementation %r, model %r" % (key, di[key], dm[key])
-                        break
-            if diff:
-                nfail += 1
-                if nfail <= 3:
-                    ctx.fail("correspondence", diff, script + sched, "conc_cl")
-                continue
-            ctx.cov["traces_validated"] += 1
-            ctx.dist["steps"] += len(di["steps"])
-            preempt = sum(1 for a, b in zip(di["steps"], di["steps"][1:]) if a.split()[1] != b.split()[1])
-            if preempt >= 3:
-                ctx.nontrivial_keys.add(hashlib.sha1("\n".join(di["steps"]).encode()).hexdigest())
-            if len(ctx.samples) < 2 and len(di["steps"]) > 10:
-                ctx.samples.append({"suite": "conc_cl", "setup": nsetup, "programs": progs, "seed": seed, "schedule_head": di["steps"][:14],
-                                    "rets": di["rets"], "final": di["final"]})
+    for vlabel, exe, disp, stride in variants:
+        runs = all_runs[::stride]
+        rng2 = random.Random("%d/C03/%s" % (ctx.seed, vlabel))
+        ctx.dist["runs_" + vlabel] += len(runs)
+        B = 500
+        for off in range(0, len(runs), B):
+            chunk = runs[off:off + B]
+            # dispatcher variants: some threads also add listeners for fresh events in between (not calls of the model)
+            hprogs = {r[0]: (suite_concl.with_other(rng2, r[3]) if disp else r[3]) for r in chunk}
+            text = "".join(suite_concl.run_text(r[0], r[1], r[2], hprogs[r[0]]) for r in chunk)
+            rc, out, err = vlib.run_harness(exe, text, timeout=600)
+            mtext = ""
+            for name, seed, nsetup, progs in chunk:
+                sec = out.get(name)
+                if sec is None:
+                    continue
+                mtext += suite_concl.run_text(name, seed, nsetup, progs) + "\n".join(l for l in sec if l.startswith("step ")) + "\n"
+            rcm, mout, errm = vlib.run_driver("concl", mtext, timeout=900)
+            for name, seed, nsetup, progs in chunk:
+                ctx.cov["evaluations"] += 1
+                script = suite_concl.run_text(name, seed, nsetup, progs)
+                sec = out.get(name)
+                if sec is None:
+                    nfail += 1
+                    if nfail <= 3:
+                        ctx.fail("violation", "implementation crashed / hung before this run finished (rc=%s): %s" % (rc, err[-800:]), script, vlabel)
+                    continue
+                di = suite_concl.parse(sec)
+                why = suite_concl.impl_oracles(nsetup, progs, di)
+                if why is None and disp:
+                    why = suite_concl.map_protocol(di, progs)
+                sched = "# schedule (global order of the performed micro-steps):\n" + "\n".join("# " + l for l in di["steps"])
+                if why:
+                    nfail += 1
+                    if nfail <= 3:
+                        ctx.fail("violation", why, script + sched, vlabel, "\n".join(l for l in sec if not l.startswith("step") and not l.startswith("note")))
+                    continue
+                dm = suite_concl.parse(mout.get(name, []))
+                diff = None
+                if dm["mismatch"]:
+                    diff = dm["mismatch"][0]
+                else:
+                    for key in ("rets", "visits", "final", "back"):
+                        if di[key] != dm[key]:
+                            diff = "%s: implementation %r, model %r" % (key, di[key], dm[key])
+                            break
+                if diff:
+                    nfail += 1
+                    if nfail <= 3:
+                        ctx.fail("correspondence", diff, script + sched, vlabel)
+                    continue
+                ctx.cov["traces_validated"] += 1
+                ctx.dist["steps"] += len(di["steps"])
+                preempt = sum(1 for a, b in zip(di["steps"], di["steps"][1:]) if a.split()[1] != b.split()[1])
+                if preempt >= 3:
+                    ctx.nontrivial_keys.add(hashlib.sha1("\n".join(di["steps"]).encode()).hexdigest())
+                if len(ctx.samples) < 2 and len(di["steps"]) > 10:
+                    ctx.samples.append({"suite": vlabel, "setup": nsetup, "programs": progs, "seed": seed, "schedule_head": di["steps"][:14],
+                                        "rets": di["rets"], "final": di["final"]})
     ctx.cov["failures"] += nfail
 
 
